@@ -511,6 +511,43 @@ func genC05(r *Rng, e *Emitter, n int) {
 			e.emit("C05.spell", in, out)
 		}
 	}
+	// the same encoder entry point called from several goroutines at once on unrelated geometries:
+	// each text must still be its own geometry's
+	for round := 0; round < n/100+1; round++ {
+		k := 4 + r.Intn(5)
+		trees := make([]*gtree, k)
+		texts := make([]string, k)
+		fs := make([]func() string, k)
+		for j := range trees {
+			l := wktLayouts[r.Intn(4)]
+			trees[j] = r.wktTree(2, l)
+			g := trees[j].build()
+			j := j
+			fs[j] = func() string {
+				var last string
+				for rep := 0; rep < 20; rep++ { // long enough to overlap
+					s, err := wkt.Marshal(g)
+					if err != nil {
+						return sxErr(err)
+					}
+					if rep > 0 && s != last {
+						texts[j] = s
+						p, _ := obsWktParse(s)
+						return p
+					}
+					last = s
+				}
+				texts[j] = last
+				p, _ := obsWktParse(last)
+				return p
+			}
+		}
+		outs := concurrently(fs)
+		for j := range trees {
+			e.tally("enc-concurrent/" + trees[j].kind)
+			e.emit("C05.enc", trees[j].sx(), "(m "+hexStr(texts[j])+" "+outs[j]+")")
+		}
+	}
 }
 
 // ---- C06: strings ----
